@@ -202,6 +202,9 @@ class IkeSaController:
                 logging.error(f'Problem sending message: {ex}')
             except KeyError as ex:
                 logging.error(f'Could not find socket with the appropriate source address: {str(ex)}')
+            except Exception as ex:
+                # a malformed datagram, an unknown peer or a failed transmission must not stop the daemon
+                logging.error(f'Error while processing an event: {type(ex).__name__}: {ex}')
 
     def close(self):
         xfrm.Xfrm.flush_policies()
